@@ -5,6 +5,7 @@ import (
 	"fmt"
 	"strings"
 	"sync"
+	"time"
 
 	"github.com/libp2p/go-libp2p/core/peer"
 
@@ -478,7 +479,9 @@ func init() {
 // c17HeldSubscriber: a subscriber is slow - it is still busy with one notification while two further events are
 // applied to the channel, then it catches up. Differential oracle: the sequence of (event, snapshot) pairs it
 // receives is exactly the sequence it receives when it is fast (every snapshot reflects the state resulting from
-// *its* event, not a later one). All ordered pairs of stimuli, both roles.
+// *its* event, not a later one), and so is the stream of a second subscriber registered after it that always keeps
+// up; the slow one stays busy for minutes of virtual time. C02 oracle on both streams: the notification that carries
+// a terminal status is the last one for the channel. All ordered pairs of stimuli, both roles.
 func c17HeldSubscriber(x *mc.Cell) {
 	extra := []stim{
 		{"disconnected", func(n *Node, c datatransfer.ChannelID, created bool, k int) {
@@ -514,6 +517,9 @@ func c17HeldSubscriber(x *mc.Cell) {
 								<-gate // busy with this notification until released
 							}
 						})
+						// a second subscriber, registered after the slow one, that always keeps up
+						sub2 := &subLog{}
+						n.Mgr.SubscribeToEvents(sub2.cb)
 						mc.Wait()
 						armed = true
 						// a first event parks the subscriber, then the two stimuli under test are applied
@@ -522,7 +528,10 @@ func c17HeldSubscriber(x *mc.Cell) {
 						_ = n.H().OnDataReceived(chid, Root(), 1, 7, true)
 						mc.Wait()
 						a.do(n, chid, role.Created(), 0)
+						time.Sleep(time.Minute) // the subscriber stays busy for a long (virtual) time
+						mc.Wait()
 						b.do(n, chid, role.Created(), 1)
+						time.Sleep(time.Minute)
 						mc.Wait()
 						if hold {
 							if !held {
@@ -538,6 +547,28 @@ func c17HeldSubscriber(x *mc.Cell) {
 							}
 						}
 						key, count = seqKey(own), len(own)
+						var own2 []Ev
+						for _, e := range sub2.snapshot() {
+							if e.Chid == chid {
+								own2 = append(own2, e)
+							}
+						}
+						key += "\n-- later subscriber --\n" + seqKey(own2)
+						// C02: once a subscriber was told the terminal status, it gets no further event for the channel
+						for who, st := range map[string][]Ev{"slow": own, "later": own2} {
+							term := -1
+							for i, e := range st {
+								if term >= 0 {
+									x.Violate("C02", fmt.Sprintf("event-after-terminal-announcement;subscriber=%s;event=%s", who, datatransfer.Events[e.Code]),
+										fmt.Sprintf("role=%s hold=%v stimuli %s,%s: the %s subscriber received %s (status %s) after it had received %s with terminal status %s; its stream: %v", RoleNames[role], hold, a.name, b.name, who,
+											datatransfer.Events[e.Code], datatransfer.Statuses[e.Vec.Status], datatransfer.Events[st[term].Code], datatransfer.Statuses[st[term].Vec.Status], codes(st)), rep)
+									break
+								}
+								if s := e.Vec.Status; s == datatransfer.Completed || s == datatransfer.Failed || s == datatransfer.Cancelled {
+									term = i
+								}
+							}
+						}
 					})
 					return key, count, ok
 				}
@@ -560,4 +591,5 @@ func c17HeldSubscriber(x *mc.Cell) {
 
 func init() {
 	mc.Register("C17", "slow-subscriber-differential", "both", c17HeldSubscriber)
+	mc.Register("C02", "l2-slow-subscriber-terminal-is-last", "both", c17HeldSubscriber)
 }
